@@ -1,6 +1,6 @@
 #!/bin/bash
 # Run every registered check (quick by default) on /repo's current tree; used to refresh evidence before a commit.
-cd /verif
+cd "$(dirname "$0")/.."
 tier=${1:-quick}
 fail=0
 for p in $(python3 -c "import json;print(' '.join(c['property_id'] for c in json.load(open('MANIFEST.json'))['checks']))"); do
